@@ -379,9 +379,10 @@ class Interp:
             if not (isinstance(st, ast.Assign) and len(st.targets) == 1 and isinstance(st.targets[0], ast.Name)):
                 raise Unsupported('ghost code must be assignments to ghost variables')
             name = st.targets[0].id
-            if name not in fr.locals or name in [a.arg for a in fr.func.node.args.args]:
-                if name not in getattr(fr, 'ghost_names', ()):
+            if name not in getattr(fr, 'ghost_names', ()):
+                if name in fr.locals:
                     raise Unsupported(f'ghost assignment to non-ghost variable {name}')
+                continue      # the loop that declares this ghost was not cut on this run (concrete iteration): nothing to track
             fr.locals[name] = self.eval(st.value, gfr)
 
     def st_Expr(self, st, fr):
@@ -577,7 +578,7 @@ class Interp:
     def st_For(self, st, fr):
         ordinal, spec = self.loop_spec(st, fr)
         it = self.resolve(self.eval(st.iter, fr))
-        if spec is not None:
+        if spec is not None and not isinstance(it, (list, tuple, range, str, dict)):
             return self.cut_loop(st, fr, ordinal, spec, kind='for', iterable=it)
         if isinstance(it, list):
             # python iterates a list live, by index: removals/insertions during the loop are observed
@@ -627,6 +628,10 @@ class Interp:
             return sorted(v, key=repr)
         if isinstance(v, lib.ConcreteIter):
             return list(v.items)
+        if isinstance(v, Obj) and v.cls is not None:
+            m = self.repo.find_method(v.cls, '__iter__')
+            if m is not None:
+                return self.iterate_concrete(self.call_func(FuncVal(m, v, m.cls), [], {}))
         raise Unsupported(f'iteration over {type(v).__name__}')
 
     def cut_loop(self, st, fr, ordinal, spec, kind, iterable=None):
@@ -1233,6 +1238,9 @@ class Interp:
         finally:
             self.depth -= 1
             self.callstack.pop()
+            if self.depth == 0:
+                # ghost variables of the verified function stay visible to its postcondition
+                self.top_ghosts = {g: fr.locals[g] for g in getattr(fr, 'ghost_names', ()) if g in fr.locals}
 
     def instantiate(self, cls, args, kwargs):
         special = lib.special_class(self, cls, args, kwargs)
